@@ -79,6 +79,12 @@ class Splice(BlockMiddleware):
             return (x for x in [a, b])
         if k == "int":
             return 5
+        if k == "zero":
+            return 0
+        if k == "false":
+            return False
+        if k == "emptystr":
+            return ""
         if k == "str":
             return "ab"
         if k == "mixed":
@@ -86,7 +92,8 @@ class Splice(BlockMiddleware):
         return entry
 
 
-SPLICE = {"none": [], "empty": [], "block": ["A"], "list2": ["A", "B"], "tuple2": ["A", "B"], "gen": TypeError, "int": TypeError,
+SPLICE = {"none": [], "empty": [], "emptystr": [], "block": ["A"], "list2": ["A", "B"], "tuple2": ["A", "B"], "gen": TypeError, "int": TypeError,
+          "zero": TypeError, "false": TypeError,
           "str": TypeError, "mixed": TypeError, "same": ["E"]}
 
 
@@ -150,6 +157,32 @@ def drv_write(text, stack_spec, prepend_spec, how):
         for m in (mk_stack(prepend_spec) or []) + st:
             l2 = m.transform(l2)
         exp = WR.write(l2, None)
+    return got, exp
+
+
+def compose_write(lib, prepend_spec):
+    l2 = lib
+    for m in (mk_stack(prepend_spec) or []) + default_unparse_stack(allow_inplace_modification=False):
+        l2 = m.transform(l2)
+    return WR.write(l2, None)
+
+
+def compose_parse(text, append_spec):
+    lib = Splitter(text).split()
+    for m in default_parse_stack(allow_inplace_modification=True) + (mk_stack(append_spec) or []):
+        lib = m.transform(lib)
+    return desc(lib)
+
+
+def drv_repeat(text):
+    """successive calls must not influence each other (no state kept between calls)"""
+    lib = EP.parse_string(text)
+    got = [EP.write_string(lib, prepend_middleware=mk_stack(["b1"])), EP.write_string(lib),
+           EP.write_string(lib, prepend_middleware=mk_stack(["l2"])), EP.write_string(lib),
+           desc(EP.parse_string(text, append_middleware=mk_stack(["b3"]))), desc(EP.parse_string(text)),
+           desc(EP.parse_string(text, append_middleware=mk_stack(["l4"])))]
+    exp = [compose_write(lib, ["b1"]), compose_write(lib, None), compose_write(lib, ["l2"]), compose_write(lib, None),
+           compose_parse(text, ["b3"]), compose_parse(text, None), compose_parse(text, ["l4"])]
     return got, exp
 
 
@@ -251,6 +284,36 @@ def task_stack(which, stack_spec, extra_spec, how):
     return rec.result(worlds=len(worlds))
 
 
+def task_repeat():
+    eng = Engine()
+    eng.own_class(TagFields, TagLib, Splice)
+    rec = Recorder(eng)
+    text, syms = sym_doc(eng)
+    E = eng.I.models.eq_simple
+    worlds = eng.run(drv_repeat, [text])
+
+    def rp(m):
+        import logging
+        logging.disable(logging.CRITICAL)
+        t = eng.model_str(m, text)
+        try:
+            got, exp = drv_repeat(t)
+        except Exception as ex:  # noqa
+            return {"input": t, "observed": f"raised {type(ex).__name__}: {ex}", "expected": "independent calls"}
+        if got == exp:
+            return None
+        bad = [i for i, (g, e) in enumerate(zip(got, exp)) if g != e]
+        return {"input": t, "observed": {"differing calls": bad, "got": [got[i] for i in bad]}, "expected": [exp[i] for i in bad]}
+    for W in worlds:
+        if W.exc is not None:
+            rec.require(W, True, "no-other-exception", rp)
+            continue
+        got, exp = W.result
+        rec.require(W, b_not(E(got, exp)), "calls-are-independent", rp)
+        rec.witness("repeated-calls", W)
+    return rec.result(worlds=len(worlds))
+
+
 def task_splice(kind):
     eng = Engine()
     eng.own_class(TagFields, TagLib, Splice)
@@ -348,6 +411,51 @@ def native_files(content, enc, target_kind):
         shutil.rmtree(d, ignore_errors=True)
 
 
+def filelog_run(content, enc, target_kind, opener):
+    """shared by the symbolic run (opener = engine stub installed beforehand) and the native replay (mock open)"""
+    return drv_files(content, enc, target_kind, opener)
+
+
+def native_filelog(enc, target_kind):
+    """replay on the real code with builtins.open mocked: returns a description if the call log is wrong"""
+    import builtins, logging
+    from unittest import mock
+    logging.disable(logging.CRITICAL)
+    content = "@a{k, t = {v}}\n"
+    log, flog = [], []
+
+    class F:
+        def __init__(self, lg):
+            self.lg = lg
+
+        def read(self):
+            self.lg.append(("read",)); return content
+
+        def write(self, t):
+            self.lg.append(("write", t)); return len(t)
+
+        def __enter__(self):
+            return self
+
+        def __exit__(self, *a):
+            self.lg.append(("close",)); return None
+
+    def fake_open(path, mode="r", *a, **k):
+        log.append(("open", path, mode, k.get("encoding")))
+        return F(log)
+    try:
+        with mock.patch.object(builtins, "open", fake_open):
+            df, ds, text = drv_files(content, enc, target_kind, {"fileobj": F(flog)})
+    except Exception as ex:  # noqa
+        return f"raised {type(ex).__name__}: {ex}"
+    exp_read = [("open", "some/path.bib", "r", enc), ("read",), ("close",)]
+    if target_kind == "path":
+        ok = log == exp_read + [("open", "out/path.bib", "w", None), ("write", text), ("close",)] and flog == [] and df == ds
+    else:
+        ok = log == exp_read and flog == [("write", text)] and df == ds
+    return None if ok else f"log={log} fileobj_log={flog}"
+
+
 def task_filelog(enc, target_kind):
     """concrete-mode run of the file wrappers against the open() stub: exact call log"""
     eng = Engine()
@@ -361,6 +469,12 @@ def task_filelog(enc, target_kind):
     def drv(content, enc, target_kind, ctx):
         r = drv_files(content, enc, target_kind, ctx)
         return r, ctx["log"], ctx["flog"]
+
+    def rp(m):
+        r = native_filelog(enc, target_kind)
+        if r is None:
+            return None
+        return {"input": [enc, target_kind], "observed": r, "expected": "open(path, encoding=enc) + read once; write exactly write_string's text once"}
     worlds = eng.run(drv, [content, enc, target_kind, ctx])
     for W in worlds:
         bad = True
@@ -372,8 +486,7 @@ def task_filelog(enc, target_kind):
                 bad = not (lg == exp_read + exp_write and fl == [] and df == ds)
             else:
                 bad = not (lg == exp_read and fl == [("write", text)] and df == ds)
-        rec.require(W, bad, "file-call-log", lambda m: {"input": [enc, target_kind], "observed": str(W.result if W.exc is None else W.exc)[:300],
-                                                         "expected": "open(path, encoding=enc) + read once; write exactly write_string's text once"})
+        rec.require(W, bad, "file-call-log", rp)
         rec.witness("file-log-checked", W)
     return rec.result(worlds=len(worlds))
 
@@ -386,7 +499,7 @@ def main():
     chk.assumptions = ["real codecs / the OS are outside the claim: open() is a stub that records its arguments; only the pass-through of path/encoding and the equality with parse_string(content) / write_string(...) are claimed",
                        "probe middlewares are the three classes defined in checks/c20.py"]
     chk.stubs = ["builtins.open -> recording stub file"]
-    chk.expected_vacuity = ["both-given-rejected", "probes-applied", "entry-spliced", "file-parsed", "file-log-checked"]
+    chk.expected_vacuity = ["both-given-rejected", "probes-applied", "entry-spliced", "file-parsed", "file-log-checked", "repeated-calls"]
     deep = chk.tier == "thorough"
     stacks = [None, [], ["b1"], ["b1", "l2"], ["l2", "b1"]] + ([["b1", "b2", "l3"], ["l3", "b2", "b1"]] if deep else [["b1", "l2", "b3"]])
     extras = [None, [], ["b8"], ["b8", "l9"], ["l9", "b8"]]
@@ -400,6 +513,7 @@ def main():
                 chk.add_task(f"{which}-{st}-{ex}-{how}".replace(" ", ""), task_stack, which=which, stack_spec=st, extra_spec=ex, how=how)
     for kind in SPLICE:
         chk.add_task(f"splice-{kind}", task_splice, kind=kind)
+    chk.add_task("repeated-calls", task_repeat)
     for enc, tk in itertools.product(("utf-8", "latin-1", "gbk", "utf-16"), ("path", "obj")):
         chk.add_task(f"files-{enc}-{tk}", task_files, enc=enc, target_kind=tk)
         chk.add_task(f"filelog-{enc}-{tk}", task_filelog, enc=enc, target_kind=tk)
